@@ -655,9 +655,19 @@ func (ex *Exec) runPath(fn *ssa.Function, prefix []int) (res *PathResult, pendin
 		}
 	}()
 	if ex.solver.dead {
-		res.Outcome = "ABORT"
-		res.Detail = "solver died"
-		return res, nil
+		// the primary solver's process ended during the last query of the path (cvc5 exits on its time limit); every
+		// query of the path has been answered (by it or by the fallback chain), so the path stands: replace the
+		// process for the rest of this worker's paths
+		if ex.active == ex.solver {
+			ex.reviveActive()
+		} else {
+			old := ex.solver
+			old.close()
+			ns := newSolver(old.kind, old.timeout)
+			ns.queries, ns.dur, ns.nUnknown = old.queries, old.dur, old.nUnknown
+			ns.push()
+			ex.solver = ns
+		}
 	}
 	res.Concurrent = ex.nGoroutines > 1
 	if schedTrace {
